@@ -3,8 +3,6 @@ package main
 import (
 	"fmt"
 
-	sdk "github.com/cosmos/cosmos-sdk/types"
-
 	"verifharness/chain"
 	"verifharness/run"
 	_ "verifharness/scen"
@@ -12,19 +10,17 @@ import (
 
 type probe struct{}
 
-func (probe) AroundModule(w *chain.World, ctx sdk.Context, module, phase string, before bool) {
-	if module == "masterchef" && phase == "end" && before && ctx.BlockHeight() >= 136 {
-		a := w.App
-		for _, p := range a.MasterchefKeeper.GetAllPoolInfos(ctx) {
-			fmt.Printf("h=%d pool %d mult=%s eden=%v tvl=%s\n", ctx.BlockHeight(), p.PoolId, p.Multiplier, p.EnableEdenRewards, a.MasterchefKeeper.GetPoolTVL(ctx, p.PoolId))
+func (probe) AfterCommit(w *chain.World, blk *chain.BlockRecord) {
+	if blk.Height == 13 {
+		for i, t := range blk.Txs {
+			fmt.Printf("tx %d %s signer=%s code=%d log=%.100s msgs=%v\n", i, t.MsgType(), t.Signer.Name, t.Result.Code, t.Result.Log, t.Msgs)
 		}
-		fmt.Println("edenprice", a.AmmKeeper.GetEdenDenomPrice(ctx, "uusdc"))
 	}
 }
 
 func main() {
-	j := run.Job{Prop: "C18", Scenario: "rewards", Index: 0, Seed: 1, Tier: "quick"}
+	j := run.Job{Prop: "C16", Scenario: "oracle-names", Index: 0, Seed: 1, Tier: "quick"}
 	run.AttachHook = func(w *chain.World) { w.AddProbe(probe{}) }
 	r := run.RunJob(j)
-	fmt.Println(r.Extra)
+	fmt.Println(r.Extra, r.NViolations)
 }
